@@ -213,6 +213,10 @@ struct Side {
     offered: usize,
     /// the writer's final flush() returned Ok: everything accepted before must reach the peer
     flushed_at_end: bool,
+    /// the reading side never started to read: its own (reverse) write failed first, and an
+    /// endpoint is not used again after it returned an error. A writer that then waits for ever
+    /// on a full pipe is waiting for a peer that is alive and simply not reading.
+    never_read: bool,
 }
 
 async fn run_writer(ep: &mut dyn Endpoint, ops: &[WOp], shutdown: bool, salt: u64, side: &std::cell::RefCell<Side>) {
@@ -615,6 +619,9 @@ impl Scenario for IoSim {
                 if reverse_bytes > 0 {
                     run_writer(rb.as_mut(), &reverse, true, 2, &back).await;
                 }
+                if back.borrow().write_err.is_some() {
+                    fwd.borrow_mut().never_read = true;
+                }
                 if back.borrow().write_err.is_none() {
                     if case.shutdown {
                         run_reader(rb.as_mut(), &case.read_caps, case.prefill, &fwd, None, fwd_limit).await;
@@ -735,7 +742,9 @@ impl Scenario for IoSim {
         }
 
         // ---- oracle
-        if stall {
+        if stall && f.never_read {
+            out.count("probe.writer_blocked_on_peer_that_never_reads");
+        } else if stall {
             // no stall fault exists in this engine, so a run that never finishes lost a wake-up or bytes
             Self::viol(&mut out, "transfer_hangs", case.stack, format!("transfer did not finish: sent {} received {} eof {}", f.sent.len(), f.received.len(), f.eof_seen));
             return out;
